@@ -41,23 +41,17 @@ fn any_channel2() -> u8 {
 
 fn resend_of(m: SendMode) -> bool { m == SendMode::Persistent || m == SendMode::Reliable }
 
-//@h props=C05,C06 tier=thorough timeout=900 role=sender-ctor
-//@fn PacketSender::new
-//@bound window sizes 2 and 4, base id any valid, max_alloc any <= 2^40
-#[kani::proof]
-#[kani::unwind(66)]
-fn o5_0_small_ctor_matches_new() {
+fn small_ctor_matches_new(w: u32) {
     let base: u32 = kani::any();
     kani::assume(packet_id::is_valid(base));
     let max_alloc: usize = kani::any();
     kani::assume(max_alloc <= 1 << 40);
-    let w: u32 = if kani::any() { 2 } else { 4 };
     let a = PacketSender::new(w, base, max_alloc);
     let ceil = ((max_alloc + MAX_FRAGMENT_SIZE - 1) / MAX_FRAGMENT_SIZE) * MAX_FRAGMENT_SIZE;
     let b = small(w, base, ceil);
     assert!(a.base_id == b.base_id && a.next_id == b.next_id && a.window_size == b.window_size && a.window_mask == b.window_mask);
     assert!(a.window.len() == b.window.len() && a.channels.len() == b.channels.len());
-    assert!(a.max_alloc == b.max_alloc && a.alloc == 0 && a.total_size == 0 && a.window_parent_id.is_none());
+    assert!(a.max_alloc == b.max_alloc && a.alloc == 0 && a.total_size == 0 && a.window_parent_id.is_none(), "[C06] the sender's limit is the peer's advertised limit rounded up to a whole fragment");
     assert!(a.packet_send_queue.len() == 0);
     let i: usize = kani::any();
     kani::assume(i < CHANNEL_COUNT);
@@ -67,6 +61,22 @@ fn o5_0_small_ctor_matches_new() {
     assert!(a.window[j].is_none() && b.window[j].is_none());
     std::mem::forget(a); std::mem::forget(b);
 }
+
+//@h props=C05,C06 tier=thorough timeout=900 role=sender-ctor args=--no-memory-safety-checks
+//@fn PacketSender::new
+//@bound window size 4 (the size every sender obligation uses), base id any valid, max_alloc any <= 2^40: the loop-free constructor of the obligations equals the real one field by field
+//@assume Kani pointer checks off (constructor comparison)
+#[kani::proof]
+#[kani::unwind(66)]
+fn o5_0_small_ctor_matches_new() { small_ctor_matches_new(4); }
+
+//@h props=C05,C06 tier=thorough timeout=900 role=sender-ctor args=--no-memory-safety-checks
+//@fn PacketSender::new
+//@bound as o5_0_small_ctor_matches_new for window size 2
+//@assume Kani pointer checks off (constructor comparison)
+#[kani::proof]
+#[kani::unwind(66)]
+fn o5_0_small_ctor_matches_new_w2() { small_ctor_matches_new(2); }
 
 fn script_two_packets(base: u32) {
     let mut s = small(4, base, 1448 * 8);
